@@ -85,6 +85,17 @@ theorem leaf_literal_valid (I : Iface) (ek : List (List Text × Key)) (vals : Li
     ∃ s, leafToText facts08 p v = some s ∧ simpleOk (builtinOf p) (primFacetsA (app I ek vals) p) s = true :=
   leaf_simpleOkA (app I ek vals) facts08_good p v hv hr
 
+/-- **default literals.** The `default="…"` written into an element or attribute declaration for a
+    conformant default value is the wire literal of that value and a valid literal of the declared
+    simple type — what XSD demands of a `default` (otherwise the schema does not compile), and what
+    makes the document valid in which the protocol writes the default in place of None. -/
+theorem default_literal_valid (I : Iface) (ek : List (List Text × Key)) (vals : List (PrimTy × List Val))
+    (p : PrimTy) (v : Val) (hv : p.valueOk v = true) (hr : leafCond (app I ek vals) p v = true) :
+    ∃ s, defaultLiteral facts08 p v = some s ∧ leafToText facts08 p v = some s ∧
+      simpleOk (builtinOf p) (primFacetsA (app I ek vals) p) s = true := by
+  obtain ⟨s, h1, h2⟩ := leaf_simpleOkA (app I ek vals) facts08_good p v hv hr
+  exact ⟨s, h1, h1, h2⟩
+
 /-- **lxml_soft_agree.** On a document whose root is the element of a registered class and that is in
     the common form — declared members only, in declared order and namespaces, no attribute but a
     true `xsi:nil` on an empty element, and at every leaf a literal on which the XSD lexical space and
